@@ -545,14 +545,21 @@ fn write_olde_ecl(
         return Err(emitter.emit(error!("too many timelines! (max allowed in this game is {max_timelines})")));
     }
 
+    // (the counts are 16-bit; they must never be written as a different value)
+    let num_subs = u16::try_from(ecl.subs.len()).map_err(|_| {
+        emitter.emit(error!("too many subs! (max allowed is {})", u16::MAX))
+    })?;
     match format.timeline_array_kind() {
         | TimelineArrayKind::Pofv { .. }
         | TimelineArrayKind::Pcb { .. } => {
-            w.write_u16(ecl.subs.len() as _)?;
-            w.write_u16(ecl.timelines.len() as _)?;
+            let num_timelines = u16::try_from(ecl.timelines.len()).map_err(|_| {
+                emitter.emit(error!("too many timelines! (max allowed is {})", u16::MAX))
+            })?;
+            w.write_u16(num_subs)?;
+            w.write_u16(num_timelines)?;
         },
         | TimelineArrayKind::Eosd { .. } => {
-            w.write_u16(ecl.subs.len() as _)?;
+            w.write_u16(num_subs)?;
             w.write_u16(0)?;
         },
     };
